@@ -50,6 +50,14 @@
 mod orswot;
 mod timestamp;
 
+#[cfg(datacake_verif)]
+/// Verification-only seams (compiled with `--cfg datacake_verif`).
+pub mod verif {
+    pub use crate::orswot::{VerifSnapshot, FORGIVENESS_PERIOD};
+    pub use crate::timestamp::verif::{injected_wall_clock, set_wall_clock};
+    pub use crate::timestamp::MAX_CLOCK_DRIFT;
+}
+
 #[cfg(feature = "rkyv-support")]
 pub use orswot::BadState;
 pub use orswot::{Key, OrSWotSet, StateChanges};
